@@ -12,6 +12,7 @@
 package sgen
 
 import (
+	"slices"
 	"strconv"
 
 	"pgregory.net/rapid"
@@ -208,6 +209,9 @@ func (g *gen) refTarget(descended bool) string {
 	return rapid.SampledFrom(cands).Draw(g.t, "reftarget")
 }
 
+// kw2020Only: what draft 2019-09 and 2020-12 added to the vocabulary.
+var kw2020Only = []string{"minContains", "maxContains", "unevaluatedProperties", "unevaluatedItems", "prefixItems", "dependentRequired", "dependentSchemas"}
+
 type kwGen func(g *gen, s *jv.V, depth int, descended bool)
 
 func (g *gen) bound() *jv.V { return jv.GenNum().Draw(g.t, "bound") }
@@ -357,7 +361,12 @@ func init() {
 			}
 		},
 		// draft-07 only
-		"items[]":         func(g *gen, s *jv.V, d int, _ bool) { s.Set("items", g.subs(g.intn(4, "n"), d, true)) },
+		"items[]": func(g *gen, s *jv.V, d int, _ bool) {
+			s.Set("items", g.subs(g.intn(4, "n"), d, true))
+			if !s.Has("additionalItems") && g.coin(2, "withadditionalitems") {
+				s.Set("additionalItems", g.schema(d-1, true, false))
+			}
+		},
 		"additionalItems": func(g *gen, s *jv.V, d int, _ bool) { s.Set("additionalItems", g.schema(d-1, true, false)) },
 		"dependencies": func(g *gen, s *jv.V, d int, desc bool) {
 			o := obj()
@@ -417,6 +426,11 @@ func (g *gen) vocabulary() []string {
 			}
 		}
 	}
+	if d7 {
+		// keywords that later drafts introduced: under draft-07 they are unknown keywords and must be
+		// ignored, whatever they would mean in 2020-12
+		add(kw2020Only)
+	}
 	switch g.lens {
 	case LensNumeric:
 		add(kwNumeric)
@@ -468,6 +482,23 @@ func (g *gen) vocabulary() []string {
 // schema draws one subschema. descended = an instance-descending keyword lies between this
 // position and the root of its region.
 func (g *gen) schema(depth int, descended bool, isRoot bool) *jv.V {
+	if g.o.Draft == refmodel.D7 && !isRoot && !g.o.NoRefs && g.coin(7, "d7refonly") {
+		// draft-07: a reference object at whatever position this is (additionalItems,
+		// additionalProperties, not, contains, dependencies ...), beside a keyword that is ignored
+		// there and would reject everything if it were not
+		if r := g.refTarget(descended); r != "" {
+			s := obj(jv.Member{K: "$ref", V: str(r)})
+			switch g.intn(4, "d7reftrap") {
+			case 0:
+				s.Set("not", obj())
+			case 1:
+				s.Set("not", boolean(true))
+			case 2:
+				s.Set("enum", &jv.V{K: jv.Arr, A: []*jv.V{}})
+			}
+			return s
+		}
+	}
 	if depth <= 0 || g.coin(8, "bool") {
 		switch g.intn(6, "leaf") {
 		case 0:
@@ -487,7 +518,7 @@ func (g *gen) schema(depth int, descended bool, isRoot bool) *jv.V {
 	if g.o.CommonOnly {
 		var f []string
 		for _, k := range voc {
-			if k != "items[]" && k != "additionalItems" && k != "dependencies" {
+			if k != "items[]" && k != "additionalItems" && k != "dependencies" && !slices.Contains(kw2020Only, k) {
 				f = append(f, k)
 			}
 		}
